@@ -138,11 +138,16 @@ def polling_case(rng, seed, prog, plan):
     for _ in range(n):
         cmds += [["start"], ["poll_stopped"]]
     cmds += [["settle"], ["drain", 6], ["settle"]]
-    return {"program": p, "strategy": 3, "mode": "polling", "plan": [list(x) for x in plan],
+    case = {"program": p, "strategy": 3, "mode": "polling", "plan": [list(x) for x in plan],
             "commands": cmds,
             "sched": {"kind": rng.choice(["pct", "site", "site"]), "seed": seed,
                       "p": rng.choice([0.02, 0.005]), "q": rng.choice([0.3, 0.15]),
                       "d": rng.choice([1, 2, 3]), "step_cost_us": rng.choice([0, 1, 10])}}
+    if rng.random() < 0.4:
+        # fault 'eager poller' (see simrun.Runner._eager)
+        case["sched"]["eager"] = [rng.choice([0.5, 0.01]),
+                       rng.choice([0, 1, 2, 3, 4, 6, 8, 10, 12, 15, 20, 25, 30, 40, 60])]
+    return case
 
 
 def run_polling(case):
